@@ -3,7 +3,7 @@ import re
 
 from ..build import AnalysisBroken
 from ..contract import CONTRACT
-from ..ir import strip_struct, cname_of, CASTS
+from ..ir import strip_struct, cname_of, CASTS, relpath
 from ..mem import ALLOCATORS
 
 
@@ -17,7 +17,7 @@ def construct(f):
 
 
 def fsite(f):
-    return "%s:%s" % (f.file.split("/repo/")[-1], f.line)
+    return "%s:%s" % (relpath(f.file), f.line)
 
 
 def public_functions(ctx, prog, rep=None, rule="contract"):
